@@ -249,6 +249,7 @@ def run(ctx):
             cov.hit("kern-agree")
         cov.traces += 1
     other_modules(ctx)
+    integer_typed_params(ctx)
 
 
 # ---------------------------------------------------------------- published equations of the other modules
@@ -435,3 +436,63 @@ def reference(cls, p, d, x, w, counts):
         sn = s + p["lr_s"] * (-2 * s * T * l2)
         return T, T, np.concatenate([Wn.ravel(), bn, [sn]])
     raise KeyError(cls)
+
+
+def integer_typed_params(ctx):
+    """the published equations are over the reals: array-valued hyper-parameters handed over with an integer dtype
+    (sigma_init=np.array([2, 1]), cov_init=np.eye(d, dtype=int); scalars must be floats, validate_params rejects
+    ints) must give the values of the same numbers handed over as floats — new_weight and a whole training run"""
+    import artlib
+    cov = ctx.cov
+    for i in range(ctx.scale(40, 800)):
+        r = gen.rng_for(ctx.seed, "C03-int", i)
+        cls = ["GaussianART", "BayesianART"][i % 2]
+        d = r.randint(1, 3)
+        spec = specs.elem_spec(r, cls, d)
+        dt = r.choice([np.int64, np.int32, np.uint8])
+        if cls == "GaussianART":
+            sig = [r.choice([1, 2, 3]) for _ in range(d)]
+            kw_f = dict(rho=spec["rho"], alpha=spec["alpha"], sigma_init=np.array(sig, dtype=float))
+            kw_i = dict(kw_f, sigma_init=np.array(sig, dtype=dt))
+        else:
+            sc = r.choice([1, 2])
+            kw_f = dict(rho=spec["rho"], cov_init=np.eye(d) * sc)
+            kw_i = dict(kw_f, cov_init=(np.eye(d) * sc).astype(dt))
+        X = specs.elem_data(r, cls, r.randint(4, 12), d, floats=r.random() < 0.5)
+        X = np.vstack([X, X[:2]])
+        rep = {"class": cls, "kwargs_float": {k: (v.tolist() if hasattr(v, "tolist") else v) for k, v in kw_f.items()},
+               "integer_dtype": np.dtype(dt).name, "X": X.tolist()}
+        C = getattr(artlib, cls)
+        try:
+            with quiet(), np.errstate(all="ignore"):
+                mf = C(**kw_f)
+                mf.fit(X)
+        except Exception as e:
+            cov.hit(f"int-params:float-twin-raised:{cls}:{exc_enum(e)}")
+            continue
+        try:
+            with quiet(), np.errstate(all="ignore"):
+                mi = C(**kw_i)
+        except AssertionError:
+            cov.hit(f"int-params:rejected-by-validate_params:{cls}")
+            continue
+        try:
+            with quiet(), np.errstate(all="ignore"):
+                mi.fit(X)
+                wn_f = np.asarray(mf.new_weight(X[0], mf.params), dtype=float)
+                wn_i = np.asarray(mi.new_weight(X[0], mi.params), dtype=float)
+        except Exception as e:
+            ctx.issue("violation", f"{cls}:integer-typed-hyper-parameters:{exc_enum(e)}",
+                      f"training with an integer-typed array hyper-parameter raised {e!r}; the same values as floats train fine", rep)
+            continue
+        same = (len(mf.W) == len(mi.W) and np.array_equal(mf.labels_, mi.labels_)
+                and all(np.allclose(np.asarray(a, dtype=float), np.asarray(b, dtype=float), rtol=1e-12, atol=1e-12, equal_nan=True)
+                        for a, b in zip(mf.W, mi.W))
+                and np.allclose(wn_f, wn_i, rtol=1e-12, atol=1e-12, equal_nan=True))
+        if not same:
+            ctx.issue("violation", f"{cls}:integer-typed-hyper-parameters",
+                      f"{'sigma_init' if cls == 'GaussianART' else 'cov_init'} given with dtype {np.dtype(dt).name} gives other weights/labels than the "
+                      f"same values given as floats: new_weight {wn_i.tolist()} vs {wn_f.tolist()}; "
+                      f"labels {np.asarray(mi.labels_).tolist()} vs {np.asarray(mf.labels_).tolist()}", rep)
+        cov.case(("int", cls, rep["kwargs_float"], rep["X"], rep["integer_dtype"]), True)
+        cov.hit(f"integer-typed-params:{cls}")
